@@ -29,6 +29,19 @@ check("C03", "exploration",
       "Trusts the guard model in cpverif/models/fieldmodel.py; blank-only fixed cells with blank not allowed are unjudged.",
       "runtime monitor on FieldFormat.validated + guard model, exhaustive enumeration of the stated product", "DESIGN.md 5/C03")
 
+check("C04", "exploration",
+      "Generated CIDs and tables (accepted/rejected cells, ragged rows, headers, IsUnique) are stored in six storages "
+      "(delimited stream/file, fixed stream/file, generated ODS, generated XLSX) and read with cutplace.rows(on_error='yield'); "
+      "every produced item is compared with the row model: verdict, row number, first offending column, input name, field name.",
+      "Trusts M-field/M-rows and the independent ODS/XLSX producers (zipfile+XML, xlsxwriter).",
+      "recorded read history vs executable row model (M-rows o M-raw)", "DESIGN.md 5/C04")
+check("C05", "exploration",
+      "Row sequences over tiny key alphabets are read through cutplace.Reader in all three modes; each produced item, the "
+      "location and see-also location of every duplicate report and the end-of-data verdict of close() are compared with an "
+      "independent uniqueness / distinct-count model; thorough enumerates all sequences of up to 5 rows over 5 row kinds.",
+      "Trusts M-checks; keys registered by a row that a later-declared check rejected and aborted raise-mode runs are unjudged.",
+      "recorded reader history vs executable model of the whole-file checks (M-checks)", "DESIGN.md 5/C05")
+
 NOT_YET = "check not built yet in this session; see DESIGN.md section 5 for the planned monitor"
 
 def main():
